@@ -233,7 +233,7 @@ def h_wmap(shape):
         obs.append(("k3:no_trap_no_weight", AND(EQ(g1["qfar"], 0.0), EQ(g2["qfar"], 0.0))))
         # the SAME map object asked again about qubits that carry the same ids at OTHER positions (ids exchanged, one moved
         # away): the answer follows the positions, whatever was asked before
-        if n >= 2:
+        if n == 2:  # (with three symbolic points the number of orderings makes these extra queries too expensive)
             swapped = dict(qubits)
             swapped["q0"], swapped["q1"] = qubits["q1"], qubits["q0"]
             swapped["qfar"] = qubits["q0"]
@@ -244,6 +244,8 @@ def h_wmap(shape):
         # the same map defined from a REGISTER, with the weights given in another order than the register's qubits
         from pulser import Register
 
+        if n > 2:
+            return obs
         names = ["a", "c", "b", "d"][:n]
         reg = Register({nm: np.array(list(P[i]), dtype=object) for i, nm in enumerate(names)})
         order = list(reversed(range(n)))
